@@ -28,7 +28,7 @@ TRUSTED = ['modelled not verified: CPython float arithmetic = IEEE-754 binary64 
            'computes is given to the model as a hint and accepted only within one ulp)',
            'axioms (only under the C12_float_* theorems; the C12_exact_* theorems are closed '
            'under the global context): Coq standard library FloatAxioms (Prim2SF_valid, SF2Prim_Prim2SF, Prim2SF_SF2Prim, '
-           'add_spec, abs_spec, eqb_spec, div_spec, ltb_spec, of_uint63_spec: the specification of the primitive binary64 '
+           'add_spec, abs_spec, eqb_spec, div_spec, ltb_spec, sub_spec, mul_spec, sqrt_spec, of_uint63_spec: the specification of the primitive binary64 '
            'operations, used by Flocq IEEE754.PrimFloat), the standard library axioms specifying the primitive 63-bit '
            'integers (Uint63.add_spec, sub_spec, eqb_correct, eqb_refl, leb_spec, ltb_spec, lor_spec, lsl_spec, lsr_spec, '
            'of_to_Z: float(count) goes through of_uint63) and the axioms of Reals (ClassicalDedekindReals.sig_forall_dec, '
@@ -581,14 +581,17 @@ CLAIM = {
             'functions the correspondence evaluates, binary64 items, no overflow of a running sum or of the quotient): '
             '|fl_sum - sum x_i| <= ((1+2^-53)^n - 1) * sum |x_i|; |fl_mean - sum x_i / n| <= ((1+2^-53)^(n+1) - 1) * sum |x_i| / n '
             '+ 2^-1075 at completion and for every streaming value against its prefix (float(count) exact below 2^53); '
-            'min/max emit one of the items, bounding every item (no rounding). NOT proved: the error bound (relative error '
-            'proportional to machine epsilon, count and conditioning) for the Welford variance/stddev and the '
+            'min/max emit one of the items, bounding every item (no rounding); the Welford variance in binary64 is never '
+            'negative while its states are finite (the running mean moves towards the new item and never past it, so the '
+            'two deviations have one sign: math.sqrt in stddev never sees a negative number), is exactly 0.0 on equal items '
+            'whatever their value, and is the literal 0.0 for fewer than two items. NOT proved: the MAGNITUDE of the error '
+            '(proportional to machine epsilon, count and conditioning) of the Welford variance/stddev and the '
             'two-pass formal variance/stddev - it is TESTED by the oracle against exact rational arithmetic on every '
             'prefix with the explicit bound given in `rule`.',
     'note': 'Trusted: Coq kernel+VM incl. primitive 63-bit integers and binary64 floats (evaluation only; no '
             'C12_exact_* theorem depends on them). The C12_float_* theorems depend on '
             'standard-library axioms: FloatAxioms.{Prim2SF_valid, SF2Prim_Prim2SF, Prim2SF_SF2Prim, add_spec, abs_spec, '
-            'eqb_spec, div_spec, ltb_spec, of_uint63_spec}, Uint63.{add_spec, sub_spec, eqb_correct, eqb_refl, leb_spec, '
+            'eqb_spec, div_spec, ltb_spec, sub_spec, mul_spec, sqrt_spec, of_uint63_spec}, Uint63.{add_spec, sub_spec, eqb_correct, eqb_refl, leb_spec, '
             'ltb_spec, lor_spec, lsl_spec, lsr_spec, of_to_Z} and the Reals axioms ClassicalDedekindReals.sig_forall_dec, ClassicalDedekindReals.sig_not_dec, '
             'Classical_Prop.classic, FunctionalExtensionality.functional_extensionality_dep (via Flocq 4.1.0); hand-written generic model of rxsci/math/*.py tied by correspondence only; CPython '
             'float semantics, float(int) below 2^53, builtin sum (Neumaier) and math.sqrt are modelled; libm pow(x,2.0) '
